@@ -553,6 +553,7 @@ class Interp:
         for k, v in zip(e.keys, e.values):
             if k is None:
                 src = self.ev(v, fr)
+                if isinstance(src, SymVal) and hasattr(src, 'sym_mapping'): src = src.sym_mapping(self)
                 if not isinstance(src, dict): raise Outside('** of non-dict')
                 d.update(src)
             else:
@@ -727,6 +728,7 @@ class Interp:
         for k in e.keywords:
             if k.arg is None:
                 d = self.ev(k.value, fr)
+                if isinstance(d, SymVal) and hasattr(d, 'sym_mapping'): d = d.sym_mapping(self)
                 if not isinstance(d, dict): raise Outside('** of non-dict')
                 kw.update(d)
             else: kw[k.arg] = self.ev(k.value, fr)
